@@ -65,6 +65,7 @@ inductive Ty where
   | dictE (k t : Ty)                 -- tlb.HashmapE[K,V]: Maybe ^(Hashmap n V); the dictionary itself is C05's model
   | dict (k t : Ty)                  -- tlb.Hashmap[K,V] written into the current cell (hm_edge; never empty); greedy
   | chain (elem : Ty)                -- wallet.W5ExtendedActions: first element inline, every further one behind a ref
+  | highload                         -- wallet.PayloadHighload: HashmapE 16 of (mode:uint8 message:^…), keys 0..n-1
   | encErr (id : String)             -- Go MarshalTLB returns "not implemented"; decode side not modelled
   | opaque (id : String)             -- custom codec without a model
 inductive Fields where
